@@ -36,10 +36,29 @@
 //!     eq    -> `main == other`;  req -> `other == main`   (`true` / `false`)
 //!   every op except `eq`/`req`/`conv`/`convr` takes the prefix `o.` to act on the second sketch
 //!   (binary ops then use the main sketch as their operand).
+//! `regs` cases — copies next to their sources:
+//!   case <n> regs num=<n> scaled=<s> mh=<max_hash> k=<ksize> [mol=..] regs=<v|t><track>,…
+//!        a register file of new sketches (`v0` = vector without abundances, `t1` = tree with, …), all LIVE
+//!        for the whole case
+//!   r <i> <j> <op> <args…>   any op above (no `o.` prefix) on register i, register j != i as its operand
+//!                            (binary ops need both of one type; `copy` puts the clone into j and asks it)
+//!   req <i> <j>              `reg i == reg j` (one type)
+//!   dup <i> <j> c|sig|ffi    reg j := a `Clone` of reg i — directly, as part of a cloned `Signature` that owns
+//!                            the sketch, or through `signature_push_mh` + `signature_first_mh` (vector type);
+//!                            answers the copy's hashes: NO digest is asked of either
+//!   rserde <i> <j>           reg j := from_str(to_string(&reg i))
+//!   rconv <i> <j> clone|ref|ffi   reg j := From(reg i.clone()) / KmerMinHash::from(&tree) /
+//!                            `signature_first_mh` on a Signature holding the tree sketch
+//!   rconvi <i>               reg i := From(reg i) by value
+//!   (the two-sketch ops `clone` / `copy` / `down*` could not show a digest cell SHARED between a copy
+//!   and its source: `clone` drops the source, `copy` asks the copy's md5sum at once — which fills a shared
+//!   cell before anything is mutated — and `down*` clone a temporary.  Here a copy taken while no digest
+//!   exists stays next to its source, one of the two is mutated, and both are asked in either order.)
 //! The generator calls an observer BEFORE most mutators — the order under which a forgotten cache
 //! invalidation shows — and often again right after.
 use sourmash::encodings::HashFunctions;
 use sourmash::ffi::minhash::*;
+use sourmash::ffi::signature::{signature_first_mh, signature_free, signature_new, signature_push_mh, SourmashSignature};
 use sourmash::ffi::utils::{sourmash_err_clear, sourmash_err_get_last_code, ForeignObject};
 use sourmash::signature::{Signature, SigsTrait};
 use sourmash::sketch::Sketch;
@@ -124,6 +143,151 @@ fn in_sig<R>(tgt: &mut Sk, f: impl FnOnce(&mut Signature) -> R) -> R {
 struct St {
     main: Option<Sk>,
     other: Option<Sk>,
+    /// `regs` cases: any number of live sketches
+    regs: Vec<Sk>,
+}
+
+/// ops that read the operand sketch (or, `copy`, overwrite it): both registers must be of one type
+const BINARY: [&str; 8] = ["merge", "inflate", "addfrom", "rmfrom", "copy", "cmerge", "caddfrom", "crmfrom"];
+
+/// a placeholder that sits in a register slot while the real sketch is moved out
+fn dummy_sk() -> Sk {
+    Sk::V(KmerMinHash::new(0, 1, HashFunctions::Murmur64Dna, 42, false, 1))
+}
+
+/// `Clone` through a `Signature` that owns the sketch: the sketch is moved in, the whole `Signature`
+/// is cloned (derived `Clone` of `Signature` / `Sketch` → `Clone` of the sketch), both moved out again
+fn clone_in_sig(orig: &mut Sk) -> Sk {
+    let take = |sig: &mut Signature| -> Sk {
+        let mut out = Sketch::MinHash(KmerMinHash::new(0, 1, HashFunctions::Murmur64Dna, 42, false, 1));
+        for s in sig.iter_mut() {
+            std::mem::swap(s, &mut out);
+        }
+        match out {
+            Sketch::MinHash(m) => Sk::V(m),
+            Sketch::LargeMinHash(m) => Sk::T(m),
+            _ => unreachable!(),
+        }
+    };
+    let owned = std::mem::replace(orig, dummy_sk());
+    let mut sig = Signature::default();
+    sig.push(match owned {
+        Sk::V(m) => Sketch::MinHash(m),
+        Sk::T(m) => Sketch::LargeMinHash(m),
+    });
+    let mut sig2 = sig.clone();
+    *orig = take(&mut sig);
+    take(&mut sig2)
+}
+
+/// `regs` cases
+fn step_regs(st: &mut St, ws: &[&str]) -> String {
+    let nreg = st.regs.len();
+    let idx = |w: &str| -> Option<usize> { w.parse::<usize>().ok().filter(|&i| i < nreg) };
+    let two = |a: &str, b: &str| -> Option<(usize, usize)> {
+        match (idx(a), idx(b)) {
+            (Some(i), Some(j)) if i != j => Some((i, j)),
+            _ => None,
+        }
+    };
+    match ws[0] {
+        "r" if ws.len() >= 4 => {
+            let Some((i, j)) = two(ws[1], ws[2]) else { return "bad-op".into() };
+            let op = ws[3];
+            let same = matches!((&st.regs[i], &st.regs[j]), (Sk::V(_), Sk::V(_)) | (Sk::T(_), Sk::T(_)));
+            if !same && BINARY.contains(&op) {
+                return "bad-op".into();
+            }
+            let tgt = std::mem::replace(&mut st.regs[i], dummy_sk());
+            let src = std::mem::replace(&mut st.regs[j], dummy_sk());
+            let (tgt, src, out) = apply(tgt, src, op, &ws[3..]);
+            st.regs[i] = tgt;
+            st.regs[j] = src;
+            out
+        }
+        "req" if ws.len() == 3 => {
+            let Some((i, j)) = two(ws[1], ws[2]) else { return "bad-op".into() };
+            match (&st.regs[i], &st.regs[j]) {
+                (Sk::V(a), Sk::V(b)) => (a == b).to_string(),
+                (Sk::T(a), Sk::T(b)) => (a == b).to_string(),
+                _ => "bad-op".into(),
+            }
+        }
+        // reg j := a `Clone` of reg i; nothing is asked of either, both stay alive
+        "dup" if ws.len() == 4 => {
+            let Some((i, j)) = two(ws[1], ws[2]) else { return "bad-op".into() };
+            let c = match ws[3] {
+                "c" => st.regs[i].clone(),
+                "sig" => clone_in_sig(&mut st.regs[i]),
+                // the C API: `signature_push_mh` clones into a signature, `signature_first_mh` hands
+                // out a clone of that clone
+                "ffi" => match &st.regs[i] {
+                    Sk::V(m) => unsafe {
+                        sourmash_err_clear();
+                        let sig = signature_new();
+                        signature_push_mh(sig, SourmashKmerMinHash::from_ref(m));
+                        let h = signature_first_mh(sig);
+                        signature_free(sig);
+                        if let Some(e) = ffi_err() {
+                            return e;
+                        }
+                        Sk::V(*SourmashKmerMinHash::into_rust(h))
+                    },
+                    _ => return "bad-op".into(),
+                },
+                _ => return "bad-op".into(),
+            };
+            st.regs[j] = c;
+            st.regs[j].mins()
+        }
+        "rserde" if ws.len() == 3 => {
+            let Some((i, j)) = two(ws[1], ws[2]) else { return "bad-op".into() };
+            let x = match &st.regs[i] {
+                Sk::V(m) => Sk::V(serde_json::from_str(&serde_json::to_string(m).unwrap()).unwrap()),
+                Sk::T(m) => Sk::T(serde_json::from_str(&serde_json::to_string(m).unwrap()).unwrap()),
+            };
+            st.regs[j] = x;
+            st.regs[j].mins()
+        }
+        // reg j := the `From` conversion of reg i (which stays alive): of a clone, by reference
+        // (tree sources), or through `signature_first_mh` on a Signature holding the tree sketch
+        "rconv" if ws.len() == 4 => {
+            let Some((i, j)) = two(ws[1], ws[2]) else { return "bad-op".into() };
+            let x = match (ws[3], &mut st.regs[i]) {
+                ("clone", Sk::V(m)) => Sk::T(KmerMinHashBTree::from(m.clone())),
+                ("clone", Sk::T(m)) => Sk::V(KmerMinHash::from(m.clone())),
+                ("ref", Sk::T(m)) => Sk::V(KmerMinHash::from(&*m)),
+                ("ffi", Sk::T(_)) => {
+                    let r = in_sig(&mut st.regs[i], |sig| unsafe {
+                        sourmash_err_clear();
+                        let h = signature_first_mh(SourmashSignature::from_ref(&*sig));
+                        match ffi_err() {
+                            Some(e) => Err(e),
+                            None => Ok(*SourmashKmerMinHash::into_rust(h)),
+                        }
+                    });
+                    match r {
+                        Ok(m) => Sk::V(m),
+                        Err(e) => return e,
+                    }
+                }
+                _ => return "bad-op".into(),
+            };
+            st.regs[j] = x;
+            st.regs[j].mins()
+        }
+        // reg i := the `From` conversion of reg i (by value)
+        "rconvi" if ws.len() == 2 => {
+            let Some(i) = idx(ws[1]) else { return "bad-op".into() };
+            let old = std::mem::replace(&mut st.regs[i], dummy_sk());
+            st.regs[i] = match old {
+                Sk::V(m) => Sk::T(KmerMinHashBTree::from(m)),
+                Sk::T(m) => Sk::V(KmerMinHash::from(m)),
+            };
+            st.regs[i].mins()
+        }
+        _ => "bad-op".into(),
+    }
 }
 
 fn kv_opt<'a>(ws: &'a [&str], key: &str) -> Option<&'a str> {
@@ -176,6 +340,29 @@ fn handle(m: &mut KmerMinHash) -> *mut SourmashKmerMinHash {
 }
 
 fn step(st: &mut St, ws: &[&str]) -> String {
+    if ws[0] == "case" && ws[2] == "regs" {
+        // case <n> regs num= scaled= mh= k= [mol=] regs=<v|t><track>,…   (every register is a new sketch)
+        let scaled: u64 = kv(ws, "scaled").parse().unwrap();
+        let mh: u64 = kv(ws, "mh").parse().unwrap();
+        let num: u32 = kv(ws, "num").parse().unwrap();
+        let k: u32 = kv(ws, "k").parse().unwrap();
+        let hf = hash_fn(kv_opt(ws, "mol").unwrap_or("dna"));
+        st.main = None;
+        st.other = None;
+        st.regs = kv(ws, "regs")
+            .split(',')
+            .map(|d| Sk::new(d.starts_with('t'), scaled, k, num, d.ends_with('1'), hf.clone()))
+            .collect();
+        if st.regs.is_empty() || st.regs[0].max_hash() != mh {
+            let m = st.regs.first().map(|r| r.max_hash()).unwrap_or(0);
+            st.regs.clear();
+            return format!("err max_hash {}", m);
+        }
+        return "ok".into();
+    }
+    if !st.regs.is_empty() {
+        return step_regs(st, ws);
+    }
     if ws[0] == "case" {
         let tree = ws[2] == "tree";
         let scaled: u64 = kv(ws, "scaled").parse().unwrap();
@@ -241,6 +428,18 @@ fn step(st: &mut St, ws: &[&str]) -> String {
     if on_other {
         std::mem::swap(&mut tgt, &mut src);
     }
+    let (mut tgt, mut src, out) = apply(tgt, src, op, ws);
+    if on_other {
+        std::mem::swap(&mut tgt, &mut src);
+    }
+    st.main = Some(tgt);
+    st.other = Some(src);
+    out
+}
+
+/// one op `ws[0]` (prefix stripped: `op`) with arguments `ws[1..]` on `tgt`, `src` as the operand of the
+/// binary ones (both of one type for those)
+fn apply(mut tgt: Sk, mut src: Sk, op: &str, ws: &[&str]) -> (Sk, Sk, String) {
     let n = |i: usize| -> u64 { ws[i].parse().unwrap() };
     let unit = |r: Result<(), sourmash::Error>, t: &Sk| -> String {
         match r {
@@ -501,12 +700,7 @@ fn step(st: &mut St, ws: &[&str]) -> String {
         },
         _ => "bad-op".into(),
     };
-    if on_other {
-        std::mem::swap(&mut tgt, &mut src);
-    }
-    st.main = Some(tgt);
-    st.other = Some(src);
-    out
+    (tgt, src, out)
 }
 
 // ------------------------------------------------------------------------------------ generator
@@ -812,6 +1006,182 @@ impl Gen {
     }
 }
 
+/// `regs` case: 2–5 live sketches of either type.  Copies (`Clone` directly / inside a `Signature` /
+/// through the C API, the serde round trip, the `From` conversions of a clone, by reference and
+/// through `signature_first_mh`) land in another register and BOTH stay alive; copies of copies;
+/// copies taken before any digest exists and after; any register is mutated at any time and all of
+/// them are observed in varying order.  Nothing is ever observed as a side effect of copying (`dup`,
+/// `rserde`, `rconv` answer hashes, not digests), so "copy, mutate one, ask both" happens with no
+/// digest in between.
+fn gen_regs(r: &mut Rng, o: &mut Out, pool: [u64; 8]) {
+    let scaleds: [u64; 6] = [1, 2, 3, 4, 5, 8];
+    let (scaled, num) = match r.below(10) {
+        0..=4 => (*r.pick(&scaleds), 0u64),
+        5..=8 => (0, r.range(2, 8)),
+        _ => (*r.pick(&scaleds), r.range(2, 8)),
+    };
+    let mol = *r.pick(&["dna", "dna", "dna", "dna", "dna", "protein", "dayhoff", "hp"]);
+    let ks: [u32; 4] = if mol == "dna" { [21, 31, 51, 7] } else { [21, 30, 33, 57] };
+    let k = *r.pick(&ks);
+    let n = *r.pick(&[2usize, 3, 3, 3, 4, 4, 4, 5]);
+    let uniform = r.chance(3, 5);
+    let t0 = r.chance(1, 2);
+    let mut types: Vec<bool> = (0..n).map(|_| if uniform { t0 } else { r.chance(1, 2) }).collect();
+    let track0 = r.chance(1, 2);
+    let descr: Vec<String> = (0..n)
+        .map(|i| {
+            let tr = if r.chance(4, 5) { track0 } else { !track0 };
+            format!("{}{}", if types[i] { "t" } else { "v" }, tr as u8)
+        })
+        .collect();
+    let mut line =
+        format!("regs num={} scaled={} mh={} k={} regs={}", num, scaled, max_hash_for_scaled(scaled), k, descr.join(","));
+    if mol != "dna" {
+        line += &format!(" mol={}", mol);
+    }
+    o.case(&line);
+    let g = |tree: bool| Gen { tree, protein: mol != "dna", k, ko: k, pool };
+    let other = |r: &mut Rng, i: usize| -> usize {
+        let j = r.below(n as u64 - 1) as usize;
+        if j >= i {
+            j + 1
+        } else {
+            j
+        }
+    };
+    // an operand of the same type when there is one
+    let operand = |r: &mut Rng, types: &[bool], i: usize| -> usize {
+        let same: Vec<usize> = (0..n).filter(|&j| j != i && types[j] == types[i]).collect();
+        if same.is_empty() || r.chance(1, 10) {
+            other(r, i)
+        } else {
+            *r.pick(&same)
+        }
+    };
+    let observe = |r: &mut Rng, o: &mut Out, types: &[bool], i: usize| {
+        let j = operand(r, types, i);
+        match r.below(12) {
+            0..=5 => o.op(&format!("r {} {} md5", i, j)),
+            6..=7 => o.op(&format!("r {} {} {}", i, j, if types[i] { "md5" } else { "cmd5" })),
+            8 => o.op(&format!("r {} {} jmd5", i, j)),
+            9..=10 if types[i] == types[j] => {
+                if r.chance(1, 2) {
+                    o.op(&format!("req {} {}", i, j))
+                } else {
+                    o.op(&format!("req {} {}", j, i))
+                }
+            }
+            _ => o.op(&format!("r {} {} md5", i, j)),
+        }
+    };
+    let observe_all = |r: &mut Rng, o: &mut Out, types: &[bool]| {
+        let mut order: Vec<usize> = (0..n).collect();
+        for a in (1..n).rev() {
+            let b = r.below(a as u64 + 1) as usize;
+            order.swap(a, b);
+        }
+        for i in order {
+            observe(r, o, types, i);
+        }
+    };
+    let mutate = |r: &mut Rng, o: &mut Out, types: &[bool], i: usize| {
+        let j = operand(r, types, i);
+        let m = loop {
+            let (m, _) = g(types[i]).mutator(r, false);
+            let w = m.split(' ').next().unwrap();
+            if types[i] == types[j] || !BINARY.contains(&w) {
+                break m;
+            }
+        };
+        o.op(&format!("r {} {} {}", i, j, m));
+    };
+    // prelude: one or two registers get contents; a digest exists before the first copy or not
+    let first = r.below(n as u64) as usize;
+    for _ in 0..r.range(1, 3) {
+        let hs: Vec<u64> = (0..r.range(1, 6)).map(|_| *r.pick(&pool)).collect();
+        let j = other(r, first);
+        match r.below(4) {
+            0 => o.op(&format!("r {} {} add {} 1", first, j, hs[0])),
+            1 if !types[first] => o.op(&format!("r {} {} caddmany {}", first, j, show_nats(hs))),
+            _ => o.op(&format!("r {} {} addmany {}", first, j, show_nats(hs))),
+        }
+    }
+    if r.chance(1, 3) {
+        observe(r, o, &types, first);
+    }
+    let mut src = first;
+    for _ in 0..r.range(4, 24) {
+        match r.below(100) {
+            // a copy of some register into another one
+            0..=24 => {
+                let i = if r.chance(1, 2) { src } else { r.below(n as u64) as usize };
+                let j = other(r, i);
+                match r.below(14) {
+                    0..=3 => {
+                        o.op(&format!("dup {} {} c", i, j));
+                        types[j] = types[i];
+                    }
+                    4..=5 => {
+                        o.op(&format!("dup {} {} sig", i, j));
+                        types[j] = types[i];
+                    }
+                    6 if !types[i] => {
+                        o.op(&format!("dup {} {} ffi", i, j));
+                        types[j] = types[i];
+                    }
+                    7 if types[i] == types[j] => o.op(&format!("r {} {} copy", i, j)),
+                    8..=9 => {
+                        o.op(&format!("rserde {} {}", i, j));
+                        types[j] = types[i];
+                    }
+                    10 => {
+                        o.op(&format!("rconv {} {} clone", i, j));
+                        types[j] = !types[i];
+                    }
+                    11 if types[i] => {
+                        o.op(&format!("rconv {} {} {}", i, j, if r.chance(1, 2) { "ref" } else { "ffi" }));
+                        types[j] = false;
+                    }
+                    12 => {
+                        o.op(&format!("rconvi {}", i));
+                        types[i] = !types[i];
+                    }
+                    _ => {
+                        o.op(&format!("dup {} {} c", i, j));
+                        types[j] = types[i];
+                    }
+                }
+                // the next ops prefer the pair just made
+                src = if r.chance(1, 2) { i } else { j };
+            }
+            25..=64 => {
+                let i = if r.chance(1, 2) { src } else { r.below(n as u64) as usize };
+                mutate(r, o, &types, i);
+            }
+            65..=89 => {
+                let i = if r.chance(1, 3) { src } else { r.below(n as u64) as usize };
+                observe(r, o, &types, i);
+            }
+            90..=92 => {
+                // the register is replaced by its own clone (the original is dropped)
+                let i = r.below(n as u64) as usize;
+                let j = other(r, i);
+                o.op(&format!("r {} {} clone", i, j));
+            }
+            _ => observe_all(r, o, &types),
+        }
+    }
+    // every live sketch is asked at the end, in a random order, then compared pairwise
+    observe_all(r, o, &types);
+    if r.chance(1, 2) {
+        let i = r.below(n as u64) as usize;
+        let j = operand(r, &types, i);
+        if types[i] == types[j] {
+            o.op(&format!("req {} {}", i, j));
+        }
+    }
+}
+
 fn gen(a: &Args) {
     let mut r = Rng::new(a.seed);
     let mut o = Out::new();
@@ -824,6 +1194,14 @@ fn gen(a: &Args) {
     };
     let scaleds: [u64; 6] = [1, 2, 3, 4, 5, 8];
     for _ in 0..ncases {
+        if r.chance(3, 10) {
+            let mut pool = [0u64; 8];
+            for p in pool.iter_mut() {
+                *p = pick_hash(&mut r);
+            }
+            gen_regs(&mut r, &mut o, pool);
+            continue;
+        }
         let mut tree = r.chance(1, 2);
         // bounded by a ceiling, by a size, or by both (a fifth of the cases)
         let (scaled, num) = match r.below(10) {
@@ -984,6 +1362,7 @@ fn main() {
             || St {
                 main: None,
                 other: None,
+                regs: vec![],
             },
             step,
         ),
